@@ -13,6 +13,7 @@ import (
 	"math/rand"
 	"os"
 	"sort"
+	"strings"
 	"strconv"
 	"sync"
 	"sync/atomic"
@@ -94,13 +95,26 @@ func safeMatch(p, m interface{}, bs match.Bindings) (res []match.Bindings, err e
 		}
 	}()
 	// (both entry points: the package function and the default matcher's method, which is what core calls)
-	if atomic.AddInt64(&entry, 1)%2 == 0 {
+	if forceDefault || (atomic.AddInt64(&entry, 1)/3000)%2 == 1 { // (in long runs of one and then the other: what a matcher keeps between calls adds up)
 		return match.DefaultMatcher.Match(p, m, bs)
 	}
 	return match.Match(p, m, bs)
 }
 
 var entry int64
+
+// forceDefault: from the middle of a generated run on, every match goes through the default matcher's method, after a long
+// history of array matches through it (a matcher may keep nothing from one match to the next)
+var forceDefault bool
+
+func longHistory() {
+	p := map[string]interface{}{"xs": []interface{}{map[string]interface{}{"a": "?x"}, map[string]interface{}{"b": "?y"}}}
+	m := map[string]interface{}{"xs": []interface{}{map[string]interface{}{"a": 1.0}, map[string]interface{}{"b": 2.0}, map[string]interface{}{"a": 3.0, "b": 4.0}}}
+	for i := 0; i < 4000; i++ {
+		match.DefaultMatcher.Match(p, m, match.Bindings{})
+	}
+	forceDefault = true
+}
 
 // runCase evaluates (p, m, bs) nEvals times with permuted map construction and
 // nConc concurrent evaluations of one shared pattern value.
@@ -152,7 +166,7 @@ func runCase(id int, kind string, p, m interface{}, bs match.Bindings, sigma mat
 	// a pattern value that has been matched is edited where it is (one property renamed, the size unchanged) and matched
 	// again: the answer is the one a fresh copy of the edited pattern gets
 	c.EditSame = true
-	if pm, is := p0.(map[string]interface{}); is && kind == "pure" && enc.Canon(enc.P(p0)) == enc.Canon(c.P) {
+	if pm, is := p0.(map[string]interface{}); is && (kind == "pure" || kind == "deep") && enc.Canon(enc.P(p0)) == enc.Canon(c.P) {
 		for _, k := range enc.SortedKeys(pm) {
 			if enc.IsVar(k) {
 				continue
@@ -162,7 +176,7 @@ func runCase(id int, kind string, p, m interface{}, bs match.Bindings, sigma mat
 			pm[k+"_renamed"] = v
 			r1, e1 := safeMatch(pm, build(m, nil), build(bs, nil).(match.Bindings))
 			r2, e2 := safeMatch(build(pm, nil), build(m, nil), build(bs, nil).(match.Bindings))
-			c.EditSame = enc.Canon(enc.Bss(r1)) == enc.Canon(enc.Bss(r2)) && errClass(e1) == errClass(e2)
+			c.EditSame = bagOf(r1) == bagOf(r2) && errClass(e1) == errClass(e2)
 			delete(pm, k+"_renamed")
 			pm[k] = v
 			break
@@ -189,6 +203,16 @@ func runCase(id int, kind string, p, m interface{}, bs match.Bindings, sigma mat
 	}
 	c.FrameMut = O{"p": enc.P(p0), "m": enc.V(m0), "bs": enc.Bs(bs0)}
 	return c
+}
+
+// bagOf: the results as a bag (their order is not specified)
+func bagOf(bss []match.Bindings) string {
+	xs := []string{}
+	for _, b := range bss {
+		xs = append(xs, enc.Canon(enc.Bs(b)))
+	}
+	sort.Strings(xs)
+	return strings.Join(xs, "|")
 }
 
 // scribble changes a returned bindings map at its top level.
@@ -653,6 +677,9 @@ func main() {
 		out := newOut(os.Args[5])
 		defer out.close()
 		for id := 1; id <= n; id++ {
+			if id == n/2+1 {
+				longHistory()
+			}
 			switch mode {
 			case "deep":
 				out.write(genDeep(id))
